@@ -7,6 +7,7 @@ import copy
 import z3
 
 from .contract import Clause, Contract
+from .engine import parse_spec
 from .engine import (CallEval, Engine, Evaluator, Obligation, Outcome, SpecError, State, Unsupported)
 from .source import Extractor, sha
 from .ty import BOOL, DSET, INT, MAP, NONE, OBJ, OPT, SET, STR, SV, T, TUP, U, parse_type
@@ -88,6 +89,9 @@ class Exec(Engine):
             if nm in binds:
                 v = ev.ev(binds[nm][1], pt)
                 v = self.fix_empty_to(ev, v, pt)
+                if v.t.k == 'opt' and pt.k != 'opt' and v.t.args[0] == pt:
+                    # passing an Optional where a value is required: None would be a TypeError inside the callee
+                    ev.may_raise.append((z3.Not(v.z['none']), 'TypeError', f'None passed as `{nm}` to {c.key}'))
                 out[nm] = self.coerce(v, pt)
             elif nm in c.defaults:
                 v = ev.ev(ast.parse(repr(c.defaults[nm]), mode='eval').body, pt)
@@ -247,11 +251,21 @@ class Exec(Engine):
                     continue
                 if self.interrupts and getattr(o.st, 'ki', 0) < self.interrupts and not isinstance(s, (ast.FunctionDef, ast.Pass)):
                     nxt.append(self.interrupt_edge(o.st, s))
+                if self.cur is not None and self.cur.crash_cond and not self.trial and not isinstance(s, (ast.FunctionDef, ast.Pass)):
+                    self.crash_check(o.st, 'before `' + ast.unparse(s).split('\n')[0][:50] + '`')
                 nxt.extend(self.exec_stmt(s, o.st))
             outs = nxt
             if len(outs) > 400:
                 raise Unsupported('path explosion (>400 live paths)')
         return outs
+
+    def crash_check(self, st: State, where: str):
+        """C13: the process may be killed here; whatever is on disk now is what a later run finds."""
+        b = dict(self.entry_binds)
+        probe = st.fork()
+        for cl in self.cur.crash_cond:
+            if self.active(cl):
+                self.vc(probe, self.eval_clause(probe, cl, b), name=f'crash[{where}][{cl.label()}]', kind='ensures', serves=cl.serves)
 
     def interrupt_edge(self, st: State, s):
         """C14: a KeyboardInterrupt delivered to the calling thread at this statement boundary."""
@@ -297,7 +311,7 @@ class Exec(Engine):
         for ok, kind, descr in ev.may_raise:
             if z3.is_true(ok):
                 continue
-            if kind in ('Precondition', 'Unsupported-negative-slice', 'TypeError'):
+            if kind in ('Precondition', 'Unsupported-negative-slice'):
                 self.vc(st, ok, name=f'safe[{descr}]', kind='safety', line=line, serves=self.safety_serves())
                 continue
             if self.catches(kind):
@@ -868,9 +882,41 @@ class Exec(Engine):
                 states = nxt
                 continue
             raise Unsupported(f'with {name}')
+        handles = []
+        for item in s.items:
+            ce = item.context_expr
+            nm = item.optional_vars.id if isinstance(item.optional_vars, ast.Name) else (ce.id if isinstance(ce, ast.Name) else None)
+            if nm:
+                handles.append(nm)
         for cur in states:
-            outs += self.exec_block(s.body, cur)
+            for o in self.exec_block(s.body, cur):
+                outs += self.with_exit(o, handles, s.lineno)
         return outs
+
+    def with_exit(self, o: Outcome, handles, line):
+        """Leaving a `with handle:` block closes the handle (part of the file-system model): one declared contract for a
+        normal body exit, another for an exceptional one."""
+        res = [o]
+        for nm in reversed(handles):
+            nxt = []
+            for cur in res:
+                st = cur.st
+                if not st.has(nm):
+                    nxt.append(cur)
+                    continue
+                h = st.get(nm)
+                hooks = self.R.with_exit.get(h.t.name if h.t.k == 'u' else '')
+                if not hooks:
+                    nxt.append(cur)
+                    continue
+                c = self.R.contracts[hooks[1] if cur.kind == 'raise' else hooks[0]]
+                for r in self.apply_contract(c, {'self': h}, st, line):
+                    if r.kind == 'next':
+                        nxt.append(Outcome(cur.kind, r.st, cur.val))
+                    else:
+                        nxt.append(r)       # close itself failed: that exception replaces the outcome
+            res = nxt
+        return res
 
     def st_FunctionDef(self, s, st):
         st.set(s.name, SV(T('closure'), s))
@@ -1170,6 +1216,9 @@ class Exec(Engine):
                 if True:  # assumed regardless of the property slice (proved under the properties it serves)
                     ex_st.assume(self.eval_clause(ex_st, cl, b2, old=pre_heap))
             if self.feasible(ex_st):
+                ex_st.fault_trail = list(getattr(st, 'fault_trail', [])) + [f'{cname}#{self.call_site_id(line)}:{kind}']
+                if self.cur is not None and self.cur.crash_cond and not self.trial:
+                    self.crash_check(ex_st, f'inside {cname}#{self.call_site_id(line)} ({kind})')
                 outs.append(Outcome('raise', ex_st, {'exc': exc, 'from': c.key}))
         self.havoc(st, self.frame_paths(c, binds, st) + [self.resolve_ghost_path(g, binds) for g in c.ghost_at_exit])
         rt = parse_type(c.returns)
@@ -1426,7 +1475,7 @@ class Exec(Engine):
         for c in cands:
             try:
                 sub = State([binds], st.heap, st.pc, st.old)
-                v = Evaluator(self, sub, spec=True).ev(ast.parse(c.expr.strip(), mode='eval').body)
+                v = Evaluator(self, sub, spec=True).ev(parse_spec(c.expr))
                 out[c.label()] = self.truth(v)
             except (KeyError, Unsupported, SpecError, z3.Z3Exception, TypeError, AttributeError):
                 continue
@@ -1923,7 +1972,7 @@ class Exec(Engine):
                     serves=('C14',), detail=f'interrupt points {getattr(st, "ki_points", [])}')
             return
         if not self.trial and self.ctx.finite:
-            self.canary.append(self.check_valid(st, z3.BoolVal(False))[0])
+            self.canary.append(self.check_valid(st, z3.BoolVal(False), timeout_ms=1000)[0])
         rt = parse_type(c.returns)
         b2 = dict(binds)
         if rt.k != 'none':
@@ -1987,7 +2036,7 @@ class Exec(Engine):
 
     def check_raise_exit(self, c: Contract, st: State, binds, info):
         if not self.trial and self.ctx.finite:
-            self.canary.append(self.check_valid(st, z3.BoolVal(False))[0])
+            self.canary.append(self.check_valid(st, z3.BoolVal(False), timeout_ms=1000)[0])
         exc = info['exc']
         if self.interrupts and getattr(st, 'ki', 0) > 0:
             self.vc(st, self.is_kind(exc.z, 'KeyboardInterrupt'), name='interrupt[run leaves with KeyboardInterrupt, never another exception]',
@@ -2012,9 +2061,10 @@ class Exec(Engine):
             if self.feasible(hit):
                 b2 = dict(binds)
                 b2['exc'] = exc
+                site = ('@fault[' + '>'.join(getattr(st, 'fault_trail', []) or ['raise']) + ']') if c.fault_sites else ''
                 for cl in clauses:
                     if self.active(cl):
-                        self.vc(hit, self.eval_clause(hit, cl, b2), name=f'raises[{kind}][{cl.label()}]', kind='raises',
+                        self.vc(hit, self.eval_clause(hit, cl, b2), name=f'raises[{kind}][{cl.label()}]{site}', kind='raises',
                                 serves=cl.serves or c.serves)
         if self.feasible(rest):
             # an exception kind the contract does not allow
